@@ -82,3 +82,32 @@ Example C03_mask_example :
                    [false; false; false]
   /\ FitMask.any_ext (FitMask.valid_pos [ {| rb_flag := 1; rb_flux := 1; rb_err := 1 |}; {| rb_flag := 9; rb_flux := 5; rb_err := 1 |} ]) [false; true] = false.
 Proof. split; [|reflexivity]. apply FitMask.su_used; try reflexivity. apply FitMask.su_unused; try reflexivity. apply FitMask.su_unused; try reflexivity. constructor. Qed.
+
+(* --- the first clause at the level of the fit OUTPUT (BlindFit): sources that differ only in what their flag-0 / flag-9 bands
+   carry produce related rows, and related rows give the same A_V, scale / distance index, chi^2 and predicted fluxes - in the
+   aperture-independent branch, in the aperture-dependent branch including the argmin over the distance grid, and with the
+   remove_resolved step for any mask (xeq / == : equality of the rational values) *)
+From SedV Require Import BlindFit Xnum FilterOut.
+Theorem C03_rows_blind : forall lg ln10 raws raws', Forall2 raw_same_unused raws raws' -> forall alaw lms,
+  Forall2 same_but_unused (mkrows (bands_of lg ln10 raws) alaw lms) (mkrows (bands_of lg ln10 raws') alaw lms).
+Proof. exact mkrows_blind. Qed.
+
+Theorem C03_fit2_blind : forall pen lo hi rows rows', Forall2 same_but_unused rows rows' -> Forall wf_row rows ->
+  let r := fit2_one pen lo hi rows in let r' := fit2_one pen lo hi rows' in
+  f_av r == f_av r' /\ f_sc r == f_sc r' /\ xeq (f_chi2 r) (f_chi2 r') /\ Forall2 Qeq (f_pred r) (f_pred r').
+Proof. exact fit2_blind. Qed.
+
+Theorem C03_fit3_blind : forall pen lo hi logds pd pd', blind_dist pd pd' ->
+  let r := fit3_one pen lo hi logds pd in let r' := fit3_one pen lo hi logds pd' in
+  g_best r = g_best r' /\ g_sc r = g_sc r' /\ g_av r == g_av r' /\ xeq (g_chi2 r) (g_chi2 r') /\ Forall2 Qeq (g_pred r) (g_pred r').
+Proof. exact fit3_blind. Qed.
+
+Theorem C03_fit3_masked_blind : forall pen lo hi logds pd pd' ms, blind_dist pd pd' ->
+  let r := fit3_one_masked pen lo hi logds pd ms in let r' := fit3_one_masked pen lo hi logds pd' ms in
+  g_best r = g_best r' /\ g_sc r = g_sc r' /\ g_av r == g_av r' /\ xeq (g_chi2 r) (g_chi2 r') /\ Forall2 Qeq (g_pred r) (g_pred r').
+Proof. exact fit3_masked_blind. Qed.
+
+Example C03_blind_example :
+  raw_same_unused {| rb_flag := 9; rb_flux := 1; rb_err := 1 |} {| rb_flag := 9; rb_flux := -999; rb_err := 0 |} /\
+  raw_same_unused {| rb_flag := 1; rb_flux := 2; rb_err := 1 |} {| rb_flag := 1; rb_flux := 2; rb_err := 1 |}.
+Proof. exact blind_example. Qed.
